@@ -341,7 +341,7 @@ def check(case) -> Result:
         c.update(cli)
         out = load(files, c, case["cwd"])
         results[fmt] = out
-    res.evaluations = 3
+    res.evaluations = len(results)
     if spec and spec["kind"] == "unknown":
         for fmt, (d, out, pdir) in results.items():
             if isinstance(d, BaseException):
